@@ -218,6 +218,14 @@ func handle(rq Req) (resp map[string]interface{}) {
 			time.Sleep(time.Duration(rq.GraceMs) * time.Millisecond)
 		}
 		resp["tc"] = errStr(terr)
+		if terr == nil {
+			env := types.ProduceLabelledSessionTypeEnvironment(*genv.Types)
+			var unf []interface{}
+			for _, d := range *genv.Types {
+				unf = append(unf, process.VerifType(types.Unfold(types.NewLabelType(d.Name, d.Modality), env)))
+			}
+			resp["unfold"] = unf
+		}
 		if rq.Dump {
 			resp["dump"] = process.VerifDumpProgram(procs, genv)
 		}
